@@ -30,30 +30,36 @@ CHECKS = {
         "extracted model and parse_constraint(...).allows on the same ~90k (specifier set, candidate) cases; the property "
         "itself is evaluated on the implementation against SpecifierSet.contains(prereleases=True) for every in-domain case.",
    design="8/C04",
-   note=BASE_NOTE + "Not yet theorems (correspondence + reference oracle only): !=, ~=, ==X.*, !=X.*, comma-joined sets, ^, ~, ||. "
-        "The two re.split calls of _parse_constraint are not modelled (the model receives the implementation's clause lists).",
+   note=BASE_NOTE + "Also proved by composition (Proofs/ParseCompose.v): what _parse_constraint builds from a comma set of range-like clauses "
+        "and from '||' groups means the conjunction / disjunction of the clause memberships on every regular candidate. Not yet theorems at clause "
+        "level (correspondence + reference oracle only): !=, ~=, wildcards, ^, ~ (see C15); comma sets containing a union-valued clause.",
    technique="Coq proof over an executable model + differential correspondence + reference oracle (packaging)"),
  "C05": dict(
-   text="Coq theorems (tier A, range level): on regular probes VersionRange.allows/Version.allows are plain interval "
-        "membership; exact meaning of allows_lower/allows_higher/is_strictly_lower for every regular probe (finite rank "
-        "embedding + lia); the intersection of two VersionRanges is defined (the assert is unreachable) and admits a regular "
-        "probe exactly when both do. Union-valued operands, union and difference are modelled in full (VersionUnion.of, the "
-        "merge walks, difference state machine) and decided by correspondence: model and implementation run on the same "
-        "2500 generated pairs x 3 operations per quick run, compared structurally (type, bounds, text) and on ~35 critical "
-        "probes per case; the property oracle (regular probes, commutativity, empty/universal identities) runs on the implementation.",
+   text="Coq theorems: on regular probes VersionRange.allows/Version.allows are plain interval membership; exact meaning of "
+        "allows_lower/allows_higher/is_strictly_lower for every regular probe (finite rank embedding + lia); UNION exact for every "
+        "constraint shape (single versions, ranges, unions on either side) through VersionUnion.of with its sorting, look-back merge "
+        "and recursion, for every fuel; INTERSECTION exact for every shape under the decidable hypothesis that union members are "
+        "sorted and apart (evaluated by the model on every generated operand: ~96% meet it); DIFFERENCE exact for two range-likes of "
+        "any shape under mutual regularity of the bounds; results are again well-formed. The bound comparisons of "
+        "version_range_constraint.py are re-translated from /repo on every run and proved equal to the model's (a change of meaning "
+        "breaks a proof obligation). All operations at every level are also decided by correspondence: model and implementation run "
+        "on the same 2500 generated pairs x 3 operations per quick run, compared structurally and on ~35 critical probes per case; "
+        "the property oracle (regular probes, commutativity, empty/universal identities) runs on the implementation.",
    design="8/C05",
-   note=BASE_NOTE + "Partial: the full statement (C05_full_statement in coq/Properties/C05.v) is proved only for two range operands "
-        "and intersection; union/difference and VersionUnion operands rest on correspondence and the oracle.",
-   technique="Coq proof (rank embedding + lia) over an executable model + differential correspondence + property oracle"),
+   note=BASE_NOTE + "Partial: difference with a union operand, totality beyond the range level, and the sortedness of VersionUnion.of's "
+        "result (false in general: '>2.0 || 2.0.post2') rest on correspondence and the oracle. Membership in theorems is the "
+        "member-by-member [sem]; [allows] equals it except for a union excluding one version with a local label (proved).",
+   technique="Coq proof (rank embedding + lia; translator tie for the bound comparisons) over an executable model + differential correspondence + property oracle"),
  "C12": dict(
-   text="Coq theorems: is_empty/is_any flags are unconditional (all probes); for two VersionRanges 'allows all' = yes implies "
-        "containment and 'allows any' = no implies disjointness on every regular probe; a range allows all of itself. Union "
-        "walks are modelled and tied by correspondence on 4000 generated pairs per quick run; the oracle checks the five "
-        "clauses of the property on the implementation (allows_any <-> non-empty intersection included).",
+   text="Coq theorems: is_empty/is_any flags are unconditional (all probes); 'allows all' = yes implies containment for EVERY "
+        "constraint shape (single versions, ranges, unions, through the containment walk) on every regular probe; 'allows any' = no "
+        "implies disjointness for every shape when union members are sorted and apart (decidable, evaluated at run time); every "
+        "constraint allows all of itself (no hypothesis). The bound comparisons are re-translated from /repo on every run and proved "
+        "equal to the model's. All walks are tied by correspondence on 4000 generated pairs per quick run; the oracle checks the "
+        "five clauses of the property on the implementation (allows_any <-> non-empty intersection included).",
    design="8/C12",
-   note=BASE_NOTE + "Partial: union-level walks (VersionUnion.allows_all/allows_any) and allows_any <-> intersection are decided "
-        "by correspondence and oracle, not yet by theorems.",
-   technique="Coq proof over an executable model + differential correspondence + property oracle"),
+   note=BASE_NOTE + "Partial: 'allows any' <-> non-empty intersection is decided by correspondence and oracle only.",
+   technique="Coq proof (incl. translator tie) over an executable model + differential correspondence + property oracle"),
  "C15": dict(
    text="Coq theorems: next_major/next_minor/next_patch/next_breaking return final releases strictly greater than V (any "
         "well-formed V); ^V and ~V (the ranges parse_single builds) admit V and reject their upper bound and every "
@@ -78,13 +84,13 @@ CHECKS = {
         "hook API are judged by the oracle only. Known finding D18 (local-version label not normalised) is listed in known_findings.json.",
    technique="Coq proof of the bookkeeping state machine + translator-checked bit arithmetic + replay of real operation logs + artefact oracle"),
  "C02": dict(
-   text="Coq theorems: if the marker simplifier keeps truth (premise = C07's statement) the emitted Requires-Dist marker holds exactly when "
-        "the declared markers, python range and platform list hold, and never where one fails; the python condition is the exact reading "
+   text="Coq theorems: the marker the decorated intersection returns for the declared markers, the python range and the platform list holds "
+        "exactly when all three hold, on every class of clauses meeting C07's premises (proved outright for string ==/!= clauses), and never where one fails; the python condition is the exact reading "
         "of the range (C11); Provides-Extra normal form is stable. The whole pipeline pyproject -> METADATA is judged on generated "
         "projects: every Requires-Dist line is parsed by packaging and evaluated on candidate versions and an interpreter/platform/extras "
         "grid against the declared meaning; Requires-Python and Provides-Extra likewise.",
    design="8/C02",
-   note=BASE_NOTE + "Partial: composition theorem relative to the level-2 simplifier premise; TOML/schema/Package plumbing unmodelled. "
+   note=BASE_NOTE + "Partial: composition theorem on clause classes (C07); TOML/schema/Package plumbing unmodelled. "
         "Known findings D14, D40.",
    technique="Coq composition proof over the marker/range models + reference evaluation of real METADATA (packaging)"),
  "C06": dict(
@@ -98,14 +104,19 @@ CHECKS = {
         "(SingleMarker.__init__) is tied by correspondence. Known finding D35.",
    technique="Coq proof over an executable model + differential correspondence + reference evaluator (packaging.markers)"),
  "C07": dict(
-   text="Coq theorems (level 1): inversion is complementation for atomic markers in both readings and through MultiMarker/MarkerUnion "
-        "(De Morgan), including the constructors' flattening and de-duplication. The simplifier (intersection/union/cnf/dnf/of/"
-        "_merge_single_markers, level 2) is not modelled yet: its results are judged on the implementation by truth tables on the "
-        "environment grid (500 pairs per quick run, per-case cap), and the model evaluates and prints every result structure, which must "
-        "match validate() and str().",
+   text="Coq theorems: inversion is complementation for atomic markers in both readings and through MultiMarker/MarkerUnion (De Morgan), "
+        "including the constructors' flattening and de-duplication. The whole simplifier is modelled (Model/MarkerAlg.v: decorated "
+        "intersection/union with the recursion-guard stacks, cnf, dnf, MultiMarker.of, MarkerUnion.of, intersect_simplify, union_simplify, "
+        "_merge_single_markers, the python_version special cases) and proved to keep the truth table of and/or for every environment, "
+        "fuel and guard state on every class of clauses meeting three premises (exact same-variable merge that stays in the class, sound "
+        "and symmetric key equality; the class is threaded through all 17 invariants) - and with NO premise left for markers over ==/!= "
+        "comparisons of string variables with plain values (Proofs/StringClass.v, via the C16 algebra and SingleMarker.__init__ on the "
+        "rebuilt text). Tie: the model's own simplifier must produce the implementation's marker text byte for byte and its truth table "
+        "on the environment grid (500 pairs per quick run); truth tables of the implementation's results are the oracle.",
    design="8/C07",
-   note=BASE_NOTE + "Partial: level 2 unmodelled. Known finding D35 (pinned by the suite).",
-   technique="Coq proof (inversion, constructors) + model evaluation of implementation results + truth-table oracle"),
+   note=BASE_NOTE + "Partial: that version-variable and 'extra' clauses form such a class is not proved (D35 shows substring clauses do not). "
+        "Known finding D35 (pinned by the suite).",
+   technique="Coq proof (fuel induction over a 20-function mutual fixpoint) + byte-level correspondence of the model's simplifier + truth-table oracle"),
  "C08": dict(
    text="Coq theorems: the sorted member sequence is a function of the set of files (any listing order), normalised modes depend only on "
         "the owner-execute bit and the bits above the permission bits, every wheel member carries the one timestamp, and that timestamp "
@@ -141,13 +152,15 @@ CHECKS = {
    note=BASE_NOTE + "Partial: marker -> range goes through the level-2 simplifier and is judged by the oracle only. Known finding D14.",
    technique="Coq proof over an executable model + differential correspondence + reference evaluation"),
  "C13": dict(
-   text="Coq theorems: evaluation depends on the Boolean structure only, and re-building a conjunction/disjunction from its members "
-        "(what parsing printed text does) keeps the meaning. cnf/dnf are level 2 (unmodelled): every cnf/dnf/intersect/union/invert "
-        "result is checked for truth-table equality, promised shape, and its text is re-parsed by poetry-core and by packaging and "
-        "compared on the environment grid; the model must print the same text byte for byte.",
+   text="Coq theorems: evaluation depends on the Boolean structure only; re-building a conjunction/disjunction from its members (what "
+        "parsing printed text does) keeps the meaning; cnf, dnf, MultiMarker.of and MarkerUnion.of keep the truth table on every clause "
+        "class meeting C07's premises, and with no premise for markers over string ==/!= clauses. Every cnf/dnf/intersect/union/invert "
+        "result (and the normal forms of those) is checked for truth-table equality, promised shape, and its text is re-parsed by "
+        "poetry-core and by packaging and compared on the environment grid; the model computes the same normal forms and must print the "
+        "same text byte for byte.",
    design="8/C13",
-   note=BASE_NOTE + "Partial: no theorem about the normal-form search itself. Known finding D35.",
-   technique="Coq proof (structure, constructors) + text/structure correspondence + re-parse oracle"),
+   note=BASE_NOTE + "Partial: see C07 for the clause classes. Known finding D35.",
+   technique="Coq proof + byte-level correspondence of the model's normal forms + re-parse oracle"),
  "C14": dict(
    text="Coq theorems (Model/Meta.v): the rendered header lines read back (RFC 822, in the manner of email.feedparser) as exactly the "
         "intended fields in order, values intact up to leading blanks, multi-line licence as one field, body after the blank line; "
@@ -159,21 +172,23 @@ CHECKS = {
         "tied by correspondence/oracle only.",
    technique="Coq proof (render / RFC 822 read-back) + byte-level correspondence + email.parser oracle"),
  "C16": dict(
-   text="Coq theorems (Model/Generic.v, all classes modelled): inversion is complementation for clauses and conjunctions in both "
-        "readings; clause x clause and conjunction x clause / conjunction meets and clause joins are exact on the == / != fragment; "
-        "universal/empty flags are exact. The union-level distribution code and allows_all/allows_any are decided by structural "
-        "correspondence (model = implementation on 3000 generated pairs x parse/intersect/union/invert/predicates) and the oracle "
-        "(every alphabet value and every subset of extras as probes).",
+   text="Coq theorems (Model/Generic.v, all classes modelled): inversion is complementation for every shape; intersection and union are "
+        "exact for every shape - clauses, conjunctions, unions on either side, through the distribution, de-duplication and early exits "
+        "of UnionConstraint.intersect/union - on the ==/!= fragment of the single-valued reading; the union level is proved for any class "
+        "of members with exact member-level meet/join; results hold only clauses of the operands; flags exact. The extras reading at union "
+        "level, the substring operators and allows_all/allows_any are decided by structural correspondence (model = implementation on 3000 "
+        "generated pairs x parse/intersect/union/invert/predicates) and the oracle (every alphabet value and every subset of extras as probes).",
    design="8/C16",
-   note=BASE_NOTE + "Partial: C16_full_statement (coq/Properties/C16.v) is proved for the clause and conjunction level only.",
+   note=BASE_NOTE + "Partial: substring operators (finding D35), extras reading at union level, containment/overlap answers.",
    technique="Coq proof over an executable model + structural differential correspondence + exhaustive-probe oracle"),
  "C17": dict(
-   text="Coq theorems on the unsimplified structure: the projection onto a set of names mentions only those names and holds wherever "
-        "the marker holds. only() additionally re-simplifies, and exclude / reduce_by_python_constraint go through the simplifier "
-        "(level 2): they are judged on the implementation (names, weakening on the environment grid, exactness inside the Python range).",
+   text="Coq theorems: the projection onto a set of names mentions only those names and holds wherever the marker holds (unsimplified "
+        "structure); only() as implemented, with its re-simplification through MultiMarker.of/MarkerUnion.of, weakens on every clause class "
+        "meeting C07's premises and with no premise for markers over string ==/!= clauses. exclude / reduce_by_python_constraint are "
+        "judged on the implementation (names, weakening on the environment grid, exactness inside the Python range on interpreter grids).",
    design="8/C17",
-   note=BASE_NOTE + "Partial: the implementation's only()/exclude()/reduce are judged by the oracle; the theorem is about the projection itself.",
-   technique="Coq proof (projection weakens) + truth-table oracle on the implementation"),
+   note=BASE_NOTE + "Partial: exclude()/reduce are judged by the oracle.",
+   technique="Coq proof + truth-table oracle on the implementation"),
  "C18": dict(
    text="Coq theorems: version equality is an equivalence, equals key equality (the hashed value), and equal versions are interchangeable "
         "as constraints and as probes; == on string-constraint clauses is an equivalence implying the same hashed pair and admitted "
